@@ -17,12 +17,17 @@
 # -----------------------------------------------------------------------------
 import asyncio as aio
 import logging
+import struct
 from .. import encoding as enc
 from .. import security as sec
 from .. import types
 from .. import utils
 from ..app_support import nfd_mgmt
 from .prefix_registerer import PrefixRegisterer
+
+
+# What decoding a reply that is not a ControlResponse may raise
+MALFORMED_RESPONSE = (enc.DecodeError, ValueError, TypeError, IndexError, struct.error)
 
 
 async def pass_all(_name, _sig, _context):
@@ -52,7 +57,12 @@ class NfdRegister(PrefixRegisterer):
                     app_param=b'', signer=sec.DigestSha256Signer(for_interest=True),
                     validator=pass_all,
                     lifetime=1000)
-                ret = nfd_mgmt.parse_response(reply)
+                try:
+                    ret = nfd_mgmt.parse_response(reply)
+                except MALFORMED_RESPONSE:
+                    logging.getLogger(__name__).error('Registration for %s failed: malformed response',
+                                                      enc.Name.to_str(name))
+                    return False
                 if ret['status_code'] != 200:
                     logging.getLogger(__name__).error('Registration for %s failed: %s %s',
                                                       enc.Name.to_str(name), ret["status_code"], ret["status_text"])
@@ -80,7 +90,12 @@ class NfdRegister(PrefixRegisterer):
                     nfd_mgmt.make_command_v2('rib', 'unregister', self.app.face, name=name),
                     app_param=b'', signer=sec.DigestSha256Signer(for_interest=True),
                     validator=pass_all, lifetime=1000)
-                ret = nfd_mgmt.parse_response(reply)
+                try:
+                    ret = nfd_mgmt.parse_response(reply)
+                except MALFORMED_RESPONSE:
+                    logging.getLogger(__name__).error('Unregistration for %s failed: malformed response',
+                                                      enc.Name.to_str(name))
+                    return False
                 if ret['status_code'] != 200:
                     logging.getLogger(__name__).error('Unregistration for %s failed: %s %s',
                                                       enc.Name.to_str(name), ret["status_code"], ret["status_text"])
